@@ -1,0 +1,31 @@
+//go:build verif
+
+package files
+
+// VerifRead, when set, observes every read the Reader issues to its backing store:
+// the offset the Reader believes it is at, the requested length, the buffer and the count returned.
+var VerifRead func(r *Reader, op string, offset int, length int, buf []byte, n int)
+
+// VerifRefill, when set, observes every re-centring of the buffered file window.
+var VerifRefill func(requested int64, windowStart int64, bytesRead int)
+
+// VerifOpenWrite, when set, observes every file the library opens for writing.
+var VerifOpenWrite func(path string)
+
+func verifRead(r *Reader, op string, offset int, length int, buf []byte, n int) {
+	if VerifRead != nil {
+		VerifRead(r, op, offset, length, buf, n)
+	}
+}
+
+func verifRefill(requested int64, windowStart int64, bytesRead int) {
+	if VerifRefill != nil {
+		VerifRefill(requested, windowStart, bytesRead)
+	}
+}
+
+func verifOpenWrite(path string) {
+	if VerifOpenWrite != nil {
+		VerifOpenWrite(path)
+	}
+}
